@@ -630,6 +630,14 @@ impl World {
     pub fn restore_into(&mut self, spec: &RestoreSpec, dest: Option<&Path>) -> RestoreRun {
         let own = dest.is_none();
         let dest = dest.map(|p| p.to_owned()).unwrap_or_else(|| self.next_out_dir());
+        if own {
+            // Give the (empty) destination fixed metadata, so that what a restore leaves on the
+            // root is a function of the archive only, never of the wall clock.
+            std::fs::create_dir_all(&dest).expect("create restore destination");
+            let _ = std::fs::set_permissions(&dest, <std::fs::Permissions as std::os::unix::fs::PermissionsExt>::from_mode(0o700));
+            let t = filetime::FileTime::from_unix_time(1, 0);
+            let _ = filetime::set_file_times(&dest, t, t);
+        }
         let monitor = TestMonitor::arc();
         let mon2 = monitor.clone();
         let d2 = dest.clone();
